@@ -9,6 +9,20 @@ kind == "fuzz": native go fuzzing (thorough only): fuzz (target), fuzztime.
 Q, T = "quick", "thorough"
 
 PROPS = {
+    "C01": {"engines": [
+        {"name": "alloc-api", "pkg": "internal/allocator", "run": "^TestVerifC01Alloc$",
+         "checks": {Q: 4000, T: 640000}, "shards": {Q: 2, T: 16}},
+    ]},
+    "C02": {"engines": [
+        {"name": "alloc-api", "pkg": "internal/allocator", "run": "^TestVerifC02Alloc$",
+         "checks": {Q: 4000, T: 640000}, "shards": {Q: 2, T: 16}},
+        {"name": "alloc-api-witness", "pkg": "internal/allocator", "run": "^TestVerifC02AllocWitness$", "rapid": False,
+         "checks": {Q: 1, T: 1}, "shards": {Q: 1, T: 1}},
+    ]},
+    "C11": {"engines": [
+        {"name": "alloc-api", "pkg": "internal/allocator", "run": "^TestVerifC11Alloc$",
+         "checks": {Q: 4000, T: 640000}, "shards": {Q: 2, T: 16}},
+    ]},
     "C08": {"engines": [
         {"name": "config", "pkg": "internal/config", "run": "^TestVerifC08Config$",
          "checks": {Q: 80000, T: 4800000}, "shards": {Q: 2, T: 16}},
